@@ -699,6 +699,86 @@ theorem lagrangeBasis_par (h1 : V (F.ofNat 1)) {points : List α} (hp : AllV V p
   | none => exact ⟨rfl, nil_V⟩
   | some i => exact scale_par hA hC hv1 (hC.inv _ i hv2 hinv)
 
+omit hC in
+theorem distinctStrs_congr (xs : List α) : BPoly.distinctStrs F' xs = BPoly.distinctStrs F xs := by
+  unfold BPoly.distinctStrs; rw [hA.toStr]
+
+omit hA hC in
+theorem distinctStrs_V {xs : List α} (hx : AllV V xs) : AllV V (BPoly.distinctStrs F xs) := by
+  unfold BPoly.distinctStrs
+  exact (foldl_par (AllV V) V (fun acc x => if acc.any (fun y => F.toStr y == F.toStr x) then acc else acc ++ [x])
+    (fun acc x => if acc.any (fun y => F.toStr y == F.toStr x) then acc else acc ++ [x])
+    (fun acc x ha hx => ⟨rfl, by split; exact ha; exact ha.append (AllV.single hx)⟩) xs [] hx
+    (fun _ h => by cases h)).2
+
+omit hC in
+theorem allDistinctB_congr (points : List (α × α)) :
+    BPoly.allDistinct F' points = BPoly.allDistinct F points := by
+  unfold BPoly.allDistinct; rw [hA.toStr]
+
+theorem interpolate_par {R : BPoly.Ring α} (hR : BRingOK F V R) (h1 : V (F.ofNat 1))
+    {points : List (α × α)} {values : List α} (hp : ∀ x ∈ points, V x.1 ∧ V x.2)
+    (hvals : AllV V values) :
+    BPoly.interpolate (withFB R F') points values = BPoly.interpolate R points values ∧
+      RemM V (BPoly.interpolate R points values) := by
+  unfold BPoly.interpolate
+  have hF' : (withFB R F').F = F' := rfl
+  dsimp only
+  rw [hF', hR.hF, allDistinctB_congr hA, distinctStrs_congr hA, distinctStrs_congr hA, hA.isZero, hA.one]
+  have hdx : AllV V (BPoly.distinctStrs F (points.map (·.1))) := distinctStrs_V (fun c hc => by
+    obtain ⟨x, hx, rfl⟩ := List.mem_map.1 hc; exact (hp x hx).1)
+  have hdy : AllV V (BPoly.distinctStrs F (points.map (·.2))) := distinctStrs_V (fun c hc => by
+    obtain ⟨x, hx, rfl⟩ := List.mem_map.1 hc; exact (hp x hx).2)
+  have hone : AllM V (BPoly.setCoef F [] (0, 0) F.one) := (setCoef_par hA nil_V (0, 0) hC.one).2
+  split
+  · exact ⟨rfl, fun _ h => by cases h⟩
+  · split
+    · exact ⟨rfl, fun _ h => by cases h⟩
+    · refine foldl_par (RemM V) (fun x : (α × α) × α => (V x.1.1 ∧ V x.1.2) ∧ V x.2) _ _
+        (fun acc x hacc hx => ?_) (points.zip values) (.ok (some []))
+        (fun x hx => ⟨hp _ (List.of_mem_zip hx).1, hvals _ (List.of_mem_zip hx).2⟩)
+        (fun _ h => by cases h; exact nil_V)
+      obtain ⟨⟨px, py⟩, v⟩ := x
+      obtain ⟨⟨hpx, hpy⟩, hv⟩ := hx
+      dsimp only at hpx hpy hv ⊢
+      cases acc with
+      | error k => exact ⟨rfl, fun _ h => by cases h⟩
+      | ok o =>
+        cases o with
+        | none => exact ⟨rfl, fun _ h => by cases h⟩
+        | some f =>
+          have hf : AllM V f := hacc f rfl
+          dsimp only
+          split
+          · exact ⟨rfl, hacc⟩
+          · obtain ⟨el1, hl1⟩ := lagrangeBasis_par hA hC h1 hdx hpx 0
+            obtain ⟨el2, hl2⟩ := lagrangeBasis_par hA hC h1 hdy hpy 1
+            obtain ⟨eo, -⟩ := setCoef_par hA (F := F) (F' := F') nil_V (0, 0) hC.one
+            obtain ⟨et1, ht1⟩ := times_par hA hC hR hone hl1
+            rw [eo, el1, el2, et1]
+            cases h1' : BPoly.times R (BPoly.setCoef F [] (0, 0) F.one)
+                (BPoly.lagrangeBasis F (BPoly.distinctStrs F (points.map (·.1))) px 0) with
+            | error k => exact ⟨rfl, fun _ h => by cases h⟩
+            | ok o1 =>
+              cases o1 with
+              | none => exact ⟨rfl, fun _ h => by cases h⟩
+              | some t1 =>
+                obtain ⟨et2, ht2⟩ := times_par hA hC hR (ht1 t1 h1') hl2
+                dsimp only
+                rw [et2]
+                cases h2' : BPoly.times R t1
+                    (BPoly.lagrangeBasis F (BPoly.distinctStrs F (points.map (·.2))) py 1) with
+                | error k => exact ⟨rfl, fun _ h => by cases h⟩
+                | ok o2 =>
+                  cases o2 with
+                  | none => exact ⟨rfl, fun _ h => by cases h⟩
+                  | some t2 =>
+                    obtain ⟨es, hs⟩ := scale_par hA hC (ht2 t2 h2') hv
+                    obtain ⟨ea, ha⟩ := add_par hA hC hf hs
+                    dsimp only
+                    rw [es, ea]
+                    exact ⟨rfl, fun _ h => by cases h; exact ha⟩
+
 end Interp
 end B
 
